@@ -577,3 +577,47 @@ package yang
 //@   ensures  !old(has(e.Dir, key)) ==> len(e.Errors) == old(len(e.Errors)) + 1
 //@   modifies contents(e.Dir), e.Errors, elems(e.Errors)
 //@   safe
+//
+// Tree assumptions for the recursive functions, stated over a ghost set
+// `built` of entries that exist in finished trees: it is closed under children
+// (Dir values, rpc input/output), children are non-nil and strictly lower than
+// their parent, and it contains nothing allocated after the call began -- so
+// the copy under construction is not yet subject to it.
+//@ abstract height(e *Entry) int
+//@ abstract built(e *Entry) bool
+//@ pred childOK(x *Entry) = x == nil || !built(x) || (height(x) >= 0
+//@     && (forall k string :: has(x.Dir, k) ==> x.Dir[k] != nil && built(x.Dir[k]) && height(x.Dir[k]) < height(x))
+//@     && (x.RPC != nil && x.RPC.Input != nil ==> built(x.RPC.Input) && height(x.RPC.Input) < height(x))
+//@     && (x.RPC != nil && x.RPC.Output != nil ==> built(x.RPC.Output) && height(x.RPC.Output) < height(x)))
+//@ pred builtOld(x *Entry) = !built(x) || (allocated(x) && (x.Dir == nil || allocated(x.Dir)) && (x.RPC == nil || allocated(x.RPC)))
+//
+// dup: a deep copy. The copy and everything below it is fresh (never shared
+// with the original or with another copy), children point back to their copy,
+// are filed under the same keys and keep name and kind; list attributes and
+// rpc input/output are copied too; nothing that existed before is written.
+//@ pred sameScalars(a *Entry, b *Entry) = a.Name == b.Name && a.Kind == b.Kind && a.Config == b.Config && a.Mandatory == b.Mandatory && a.Node == b.Node
+//@     && a.Type == b.Type && a.Prefix == b.Prefix && a.namespace == b.namespace && a.Description == b.Description && a.Units == b.Units && a.Key == b.Key
+//
+//@ func (*Entry).dup props C04 C06
+//@   requires e != nil && built(e) && (forall x *Entry :: childOK(x) && builtOld(x))
+//@   ensures  result != nil && fresh(result) && sameScalars(result, e) && result.Parent == e.Parent
+//@   ensures  (result.Dir == nil) == (e.Dir == nil)
+//@   ensures  e.Dir != nil ==> fresh(result.Dir) && (forall k string :: has(result.Dir, k) == has(e.Dir, k))
+//@   ensures  forall k string :: has(e.Dir, k) ==> fresh(result.Dir[k]) && result.Dir[k].Parent == result && sameScalars(result.Dir[k], e.Dir[k])
+//@   ensures  (result.ListAttr == nil) == (e.ListAttr == nil)
+//@   ensures  e.ListAttr != nil ==> fresh(result.ListAttr) && result.ListAttr.MinElements == e.ListAttr.MinElements && result.ListAttr.MaxElements == e.ListAttr.MaxElements
+//@            && result.ListAttr.OrderedByUser == e.ListAttr.OrderedByUser && result.ListAttr.OrderedBy == e.ListAttr.OrderedBy
+//@   ensures  (result.RPC == nil) == (e.RPC == nil)
+//@   ensures  e.RPC != nil ==> fresh(result.RPC) && ((result.RPC.Input == nil) == (e.RPC.Input == nil)) && ((result.RPC.Output == nil) == (e.RPC.Output == nil))
+//@   ensures  e.RPC != nil && e.RPC.Input != nil ==> fresh(result.RPC.Input) && result.RPC.Input.Parent == result && sameScalars(result.RPC.Input, e.RPC.Input)
+//@   ensures  e.RPC != nil && e.RPC.Output != nil ==> fresh(result.RPC.Output) && result.RPC.Output.Parent == result && sameScalars(result.RPC.Output, e.RPC.Output)
+//@   ensures  result.Extra != nil && fresh(result.Extra)
+//@   modifies nothing
+//@   decreases height(e)
+//@   safe
+//@   loop 1
+//@     modifies contents(ne.Dir)
+//@     invariant forall k string :: has(ne.Dir, k) == visited(k)
+//@     invariant forall k string :: visited(k) ==> has(e.Dir, k) && fresh(ne.Dir[k]) && ne.Dir[k].Parent == addr(ne) && sameScalars(ne.Dir[k], e.Dir[k])
+//@   loop 2
+//@     modifies contents(ne.Extra)
